@@ -114,3 +114,14 @@ Definition before_update_status (c : kindcfg) (old new : obj) : outcome :=
    (build/fixes/C20_semantic_equality.diff) uses apiequality.Semantic.DeepEqual (= Semantic). *)
 Definition code_mode : eqmode := Semantic.
 Definition before_update_main := before_update_main_mode code_mode.
+
+(* ---------- the whole step: what is STORED ----------
+   rest.BeforeCreate / rest.BeforeUpdate call the strategy's Canonicalize AFTER PrepareFor* and after validation;
+   what Canonicalize leaves in the object is what the store persists and serves.  On /repo
+   DefaultRESTStrategy.Canonicalize is empty: the identity. *)
+Definition canonicalize (o : obj) : obj := o.
+Definition then_canonicalize (out : outcome) : outcome :=
+  match out with Stored r => Stored (canonicalize r) | x => x end.
+Definition step_create (c : kindcfg) (new : obj) : outcome := then_canonicalize (before_create c new).
+Definition step_update_main (c : kindcfg) (old new : obj) : outcome := then_canonicalize (before_update_main c old new).
+Definition step_update_status (c : kindcfg) (old new : obj) : outcome := then_canonicalize (before_update_status c old new).
